@@ -265,10 +265,14 @@ class SolverRun:
     # ---- joining the Calculate log with the items of the search information (by point identity)
     def flush_trials(self, objs):
         """Emit trial / fail / local events for Calculate calls not yet reported, in call order."""
-        bypoint, bycoord = {}, {}
+        bypoint, bycoord, byholder = {}, {}, {}
         if objs is not None:
             for it in objs:
                 bypoint[id(it.GetY())] = it
+                try:
+                    byholder[id(it.functionValues[0])] = it
+                except Exception:       # noqa: BLE001
+                    pass
                 if it.GetIndex() >= 0:
                     bycoord.setdefault(tuple(float(t) for t in it.GetY().floatVariables), []).append(it)
         self.matched = getattr(self, "matched", set())
@@ -278,6 +282,13 @@ class SolverRun:
             self.flushed += 1
             it = bypoint.get(id(ent["point"]))
             if it is None and "exc" not in ent:
+                # the solver may hand the objective a copy of the trial's point: join through the value holder it passed ...
+                cand = byholder.get(id(ent.get("holder_in")))
+                if cand is not None and cand.GetIndex() >= 0 and id(cand) not in self.matched \
+                        and tuple(float(t) for t in cand.GetY().floatVariables) == tuple(ent["y"]):
+                    it = cand
+            if it is None and "exc" not in ent:
+                # ... or, failing that, by coordinates (first unmatched evaluated item; ambiguous if several trials share a cell)
                 # the solver may hand the objective a copy of the trial's point: join by coordinates (first unmatched evaluated item)
                 for cand in bycoord.get(tuple(ent["y"]), []):
                     if id(cand) not in self.matched:
